@@ -308,7 +308,7 @@ func (s *session) script() {
 		present(validOffer(tb, "dup-valid"))
 		// third state of the ref: stored, then removed again through the store (where removal is
 		// supported): a corrupt offer must still be refused and leave the ref absent
-		if i < 3 && !s.dead && s.b.Caps.Remove && !s.b.Caps.RemoveMixed {
+		if i < 3 && !s.dead && s.b.Caps.Remove && !s.b.Caps.RemoveMixed && !s.b.Spec.AcksEarly() {
 			if _, st := s.stored[tb.Ref]; st {
 				if err := s.b.S.RemoveBlobs(context.Background(), []blob.Ref{tb.Ref}); err == nil {
 					delete(s.stored, tb.Ref)
